@@ -54,6 +54,8 @@ static const pstate ST[] = {
       "--B\r\nContent-Disposition: form-data; name=\"a\"", "\r\n\r\nv\r\n--B--\r\n", 0 },
     { "exchanges on one connection", 2, "", "", "", "", NULL, NULL, 0 },
     { "exchanges on one connection, auto-destroy", 2, "", "", "", "", NULL, NULL, 1 },
+    /* auto-destroy, one complete exchange, k pipelined requests, ONE htp_connp_tx_freed(), then the k responses (the recycled slot moves every later transaction down by one) */
+    { "exchanges on one connection, auto-destroy, slots recycled once", 2, "", "", "", "", NULL, NULL, 2 },
 };
 #define NST ((int) (sizeof ST / sizeof ST[0]))
 typedef struct punit { const char *name; const char *text; int distinct; } punit;   /* distinct: %d in text is replaced by the repetition index */
@@ -111,7 +113,21 @@ static void build(const pstate *st, const punit *u, int k, int proper) {
 }
 static int cur_adestroy;
 static uint64_t run_shape(int onebyte) {
-    hx_script_init(&S); S.light = 1; S.cfg.log_level = HTP_LOG_NONE; S.cfg.auto_destroy = (uint8_t) cur_adestroy;
+    hx_script_init(&S); S.light = 1; S.cfg.log_level = HTP_LOG_NONE; S.cfg.auto_destroy = (uint8_t) (cur_adestroy != 0);
+    if (cur_adestroy == 2) {
+        /* first exchange, tx_freed, then the rest of both streams (whole or byte by byte) */
+        const uint8_t *q1 = memmem(Q.p, Q.n, "\r\n\r\n", 4); size_t nq1 = q1 ? (size_t) (q1 - Q.p) + 4 : Q.n; if (memmem(Q.p, nq1, "Content-Length: 3", 17) && nq1 + 3 <= Q.n) nq1 += 3;
+        const uint8_t *r1 = memmem(R.p, R.n, "\r\n\r\n", 4); size_t nr1 = r1 ? (size_t) (r1 - R.p) + 4 : R.n; if (memmem(R.p, nr1, "Content-Length: 2", 17) && nr1 + 2 <= R.n) nr1 += 2;
+        S.nops = 0; hx_script_add(&S, OP_Q, Q.p, (uint32_t) nq1); hx_script_add(&S, OP_S, R.p, (uint32_t) nr1);
+        size_t step = onebyte == 1 ? 1 : (Q.n > R.n ? Q.n : R.n);
+        for (size_t o = nq1; o < Q.n; o += step) hx_script_add(&S, OP_Q, Q.p + o, (uint32_t) (Q.n - o < step ? Q.n - o : step));
+        hx_script_add(&S, OP_FREED, NULL, 0);             /* the k pipelined transactions exist already: each of them moves down by one */
+        for (size_t o = nr1; o < R.n; o += step) hx_script_add(&S, OP_S, R.p + o, (uint32_t) (R.n - o < step ? R.n - o : step));
+        hx_script_add(&S, OP_CLOSE, NULL, 0);
+        if (hx_run(&S, &O)) return 0;
+        n_exec++; n_calls += O.ncalls;
+        return O.work_total + O.work_teardown;
+    }
     if (onebyte == 2) cx_build(&S, Q.p, Q.n, R.p, R.n, &PRECUT, PRECUT > 0 ? 1 : 0, 1); else
     if (onebyte) cx_build_uniform(&S, Q.p, Q.n, R.p, R.n, 1, 1); else cx_build(&S, Q.p, Q.n, R.p, R.n, NULL, 0, 1);
     if (hx_run(&S, &O)) return 0;
